@@ -37,14 +37,19 @@ class GCfg:
     rebuild: bool = False
     indexed: bool = False
     combined: bool = False
+    # fixed shapes instead of every shape on N nodes: each shape lists the indices of the dependencies of node i
+    fixed_shapes: Tuple[Tuple[Tuple[int, ...], ...], ...] = ()
     twin: bool = False  # reachability twin: the harness ends with check(False), which must come back violated
 
 
-def _edges(c: Ctx, names: List[str]) -> Dict[str, List[str]]:
+def _edges(c: Ctx, names: List[str], cfg: Optional[GCfg] = None) -> Dict[str, List[str]]:
     deps: Dict[str, List[str]] = {n: [] for n in names}
+    fixed = None
+    if cfg is not None and cfg.fixed_shapes:
+        fixed = cfg.fixed_shapes[c.choose(len(cfg.fixed_shapes), "shape")] if len(cfg.fixed_shapes) > 1 else cfg.fixed_shapes[0]
     for i in range(len(names)):
         for j in range(i):
-            if c.choose(2, "edge"):
+            if (j in fixed[i]) if fixed is not None else c.choose(2, "edge"):
                 deps[names[i]].append(names[j])
     return deps
 
@@ -186,7 +191,7 @@ def run_c12(cfg: GCfg, c: Ctx) -> Any:
     N = cfg.N
     PAIRS_EVERYWHERE[0] = cfg.combined
     labels = ["n%d" % i for i in range(N)]
-    deps = _edges(c, labels)
+    deps = _edges(c, labels, cfg)
     desc, anc = closure(labels, deps)
     const_arg = {l: (not deps[l] and bool(c.choose(2, "const"))) for l in labels}
     # one naming feature per program: alias form (reference / id / tag) x tag style - 0 tuples of tags; 1 as 0 but the
@@ -351,6 +356,25 @@ def run_c12(cfg: GCfg, c: Ctx) -> Any:
     return {"case": "ok", "expected": sorted(expected), **data}
 
 
+def _prior_executor(c: Ctx, d: Any, kwsel: Dict[str, Any], run_dbg: bool) -> None:
+    """Optionally an executor for the same selection was created earlier under the opposite debug setting (and never run):
+    whatever the DAG remembers of it must not leak into the executor under test."""
+    from tawazi import cfg as twz_cfg
+
+    if not c.choose(2, "prior_executor_opposite_flag"):
+        return
+    twz_cfg.RUN_DEBUG_NODES = not run_dbg
+    try:
+        d.executor(**kwsel)
+    except SXControl:
+        raise
+    except Exception:  # noqa: BLE001  (what this earlier construction does is not the subject)
+        pass
+    finally:
+        twz_cfg.RUN_DEBUG_NODES = run_dbg
+    c.cover("w_prior_executor")
+
+
 # ------------------------------------------------------------------------------------------------ C13
 @watchdog(lambda cfg: "C13")
 def run_c13(cfg: GCfg, c: Ctx) -> Any:
@@ -359,7 +383,7 @@ def run_c13(cfg: GCfg, c: Ctx) -> Any:
 
     N = cfg.N
     labels = ["n%d" % i for i in range(N)]
-    deps = _edges(c, labels)
+    deps = _edges(c, labels, cfg)
     desc, anc = closure(labels, deps)
     dbg = {l for l in labels if c.choose(2, "debug")}
     act: Dict[str, str] = {}
@@ -435,6 +459,7 @@ def run_c13(cfg: GCfg, c: Ctx) -> Any:
             else:
                 kwsel = {"root_nodes": [a], "exclude_nodes": [b]}
                 sel_all = selection_spec(labels, alldeps, {a}, {b}, None)
+            _prior_executor(c, d, kwsel, run_dbg)
             ex = d.executor(**kwsel)
             graph_nodes = set(ex.graph.nodes)
             out = ex()
@@ -446,6 +471,7 @@ def run_c13(cfg: GCfg, c: Ctx) -> Any:
             kwsel = {kind + "_nodes": [x]} if kind != "deps_of" else {"cache_deps_of": [x]}
             sel_all = selection_spec(labels, alldeps, {x} if kind == "root" else None, {x} if kind == "exclude" else None,
                                      {x} if kind in ("target", "deps_of") else None)
+            _prior_executor(c, d, kwsel, run_dbg)
             ex = d.executor(**kwsel)
             graph_nodes = set(ex.graph.nodes)
             out = ex()
